@@ -1,7 +1,9 @@
 ------------------------------ MODULE LoginSpec ------------------------------
 (* The C08 contract as an executable specification.  A server reply script is a sequence of       *)
 (* abstract packages [t |-> type, a |-> attribute] with "eom" marking the end of a server message:  *)
-(*   ack: succeed / fail / negotiate        msg: enc4 / enc3 / other                                  *)
+(*   ack: succeed / fail / negotiate / succeedx / negotiatex (the status byte of succeed / negotiate *)
+(*        with a further bit set: 0x85, 0x87 - not one of the three statuses)                           *)
+(*   msg: enc4 / enc3 / other                                                                          *)
 (*   fmt: 3ok / 2 / 4 (columns) / badtype (cipher suite not INT4) / vbnonce (nonce VARBINARY)         *)
 (*   params: good / notpem / notpkcs1 / trailing / emptykey (key of length 0) / wskey (white space and NUL only) /                       *)
 (*           pkixec / pkixed (a PKIX ECDSA / Ed25519 public key) / smallkey (a good key that is too small  *)
@@ -21,7 +23,7 @@ P(t, a) == [t |-> t, a |-> a]
 ValidPlain == <<P("ack", "succeed"), P("done", "final"), P("eom", "x")>>
 ValidEnc == <<P("ack", "negotiate"), P("msg", "enc4"), P("fmt", "3ok"), P("params", "good"), P("done", "final"),
               P("eom", "x"), P("ack", "succeed"), P("caps", "normal"), P("done", "final"), P("eom", "x")>>
-Attrs(t) == CASE t = "ack" -> {"succeed", "fail", "negotiate"}
+Attrs(t) == CASE t = "ack" -> {"succeed", "fail", "negotiate", "succeedx", "negotiatex"}
               [] t = "msg" -> {"enc4", "enc3", "other"}
               [] t = "fmt" -> {"3ok", "2", "4", "badtype", "vbnonce"}
               [] t = "params" -> {"good", "notpem", "notpkcs1", "trailing", "emptykey", "wskey", "pkixec", "pkixed", "smallkey", "cipher2", "cipher3", "cipher257", "cipherneg"}
